@@ -18,9 +18,9 @@ from mc import engine, alpha
 from mc.engine import Acc
 
 LEVEL = 'exploration'
-RULE = ('full product: structure {Obs, list(1..3), ndarray (2,) (2,2) (1,2,2), Corr N=1 with every defined-slice pattern for '
+RULE = ('full product: structure {Obs, list(1..3), ndarray (2,) (2,2) (1,2,2) and non-contiguous (transposed view, Fortran order), Corr N=1 with every defined-slice pattern for '
         'T<=4 and paddings, Corr N=2, nested dict} x content {single range chain, two replicas irregular+strided, several '
-        'ensembles + covariance input, pure covariance dim 3, reweighted, bare name with large configuration numbers} x '
+        'ensembles + covariance input, pure covariance dim 3, reweighted, bare name with large configuration numbers, irregular lists that fit an equally spaced list by length and end points} x '
         'magnitude {1e-12, 1, 1e12} x tag {None, str, "", 0, 1.5, False, True, list, dict} x (gz, indent) in string/file '
         'transports; Obs.dump / Corr.dump / pickle; pandas csv and sqlite with gz on/off; dump_dict_to_json.  Every emitted '
         'document is validated against examples/json_schema.json.  Non-trivial = everything except the plain single-chain Obs '
@@ -30,7 +30,7 @@ ASSUMPTIONS = ['fluctuations and replica means are compared to 1e-13 of the chai
 EXHAUSTIVE = True
 CHUNK = 2
 
-CONTENTS = ['single', 'tworep', 'multi', 'purecov', 'reweighted', 'bare']
+CONTENTS = ['single', 'tworep', 'multi', 'purecov', 'reweighted', 'bare', 'trap']
 MAGS = [1.0, 1e-12, 1e12]
 TAGS = [None, 'a tag', '', 0, 1.5, False, True, ['x', 1], {'k': 'v', 'n': 2}]
 
@@ -61,6 +61,8 @@ def make(pe, content, key, mag=1.0):
         o = prim({'A|r1': 'c12', 'A|r2': 'c8'}, 0, 0.8).reweight(w)
     elif content == 'bare':
         o = prim({'A': 'big'}, 0, 2.0)
+    elif content == 'trap':    # irregular lists whose length and end points would also fit an equally spaced list
+        o = prim({'A|r1': 'eqD', 'A|r2': 'trA'}, 0, 0.9)
     else:
         raise ValueError(content)
     if mag != 1.0:
@@ -193,6 +195,12 @@ def structures(pe, content, mag, tagged=None):
         for j, i in enumerate(np.ndindex(shape)):
             arr[i] = mk(j)
         out['array%s' % (shape,)] = arr
+    # arrays that are not C-contiguous in memory (a transposed view, Fortran order)
+    base = np.empty((2, 3), dtype=object)
+    for j, i in enumerate(np.ndindex((2, 3))):
+        base[i] = mk(20 + j)
+    out['array-transposed-view'] = base.T
+    out['array-fortran'] = np.asfortranarray(base)
     if content != 'purecov':
         for T in (1, 2, 3, 4):
             for pat in itertools.product([1, 0], repeat=T):
